@@ -193,7 +193,16 @@ func c09Scenarios(thorough bool) []*scenario {
 	add("ta/c09/restart", machine16(), std, pods(tG2, tB500, tBE), menu{stop: true, remove: true, restart: true}, nil)
 	add("ta/c09/recreate", machine16(), std, pods(tG2, tG1500), menu{stop: true, remove: true}, nil)
 	out[len(out)-1].maxInc = 2
-	return out
+	bl := blScenarios(thorough)
+	for _, s := range bl {
+		if s.name == "bl/dyn-share-system" {
+			s.menu.restart = true
+		}
+		if s.name == "bl/default-reserved" {
+			s.maxInc = 2
+		}
+	}
+	return append(out, bl...)
 }
 
 // ---------------------------------------------------------------------------
